@@ -138,11 +138,12 @@ Definition stats_dir (tbl : oracle) (t : list entry) (ps : list N) : N * N * N *
 
 (* C16.  t = listing of the full tree, t' = listing of the same tree after the check removed
    the files it considers inert; impl / impl' = the implementation's results.  Failed sub-checks:
-      20  (check broken) t' is not t with exactly the non-eligible files removed, up to the order
-          of the listings
+      20  (check broken) t' is not t with exactly the files of class 0 (name_class, below) removed,
+          up to the order of the listings
       21  the two results differ as maps of multisets (or one run failed and the other not)   (C16 proper)
-      23  the listing order of the remaining entries is unchanged (t' = prune t) but the
-          results are not identical *)
+      23  the listing order of the remaining entries is unchanged (t' = prune_spec t) but the
+          results are not identical
+   (check_inert itself is defined at the end of the file, after name_class) *)
 Definition same_multisets (a b : fmapN) : bool :=
   list_eqb N.eqb (map fst a) (map fst b) &&
   forallb (fun p => permb item_eqb (lookup N.eq_dec a p) (lookup N.eq_dec b p)) (map fst a).
@@ -165,16 +166,6 @@ Fixpoint entry_eqb (a b : entry) {struct a} : bool :=
 Definition file_eqb (a b : file) : bool :=
   String.eqb (fst a) (fst b) &&
   match snd a, snd b with Some x, Some y => String.eqb x y | None, None => true | _, _ => false end.
-
-Definition check_inert (t t' : list entry) (impl impl' : option fmapN) : list N :=
-  (if permb file_eqb (eligible_files_rec t) (all_files_rec t') then [] else [20%N]) ++
-  (match impl, impl' with
-   | None, None => []
-   | Some a, Some b =>
-       (if same_multisets a b then [] else [21%N]) ++
-       (if list_eqb entry_eqb (prune t) t' then (if fmap_eqb a b then [] else [23%N]) else [])
-   | _, _ => [21%N]
-   end).
 
 (* the name filter on a list of names: which are eligible (model) *)
 Definition eligible_flags (names : list string) : list bool := map eligible names.
@@ -214,3 +205,83 @@ Definition check_report (tbls : list (oracle * list N)) (t : list entry) (pairs 
   permb pairZ_eqb pairs (report_pairs tbls t).
 Definition all_ok_all (tbls : list (oracle * list N)) (t : list entry) : bool :=
   forallb (fun tp : oracle * list N => all_okb (analyze_tbl (fst tp)) (snd tp) t) tbls.
+
+(* ---------------------------------------------------------------- C16: names *)
+(* A decision of the SPECIFICATION's reading of a name (spec/DirSpec.v: is_suffix, ends_with_ci,
+   contains_ci), written by enumerating every split of the name and comparing character by
+   character - deliberately not the way the code (and Dir.eligible) computes it. *)
+Local Open Scope string_scope.
+Definition ci_charb (c d : ascii) : bool :=
+  let n := N_of_ascii c in
+  let k := N_of_ascii d in
+  Ascii.eqb c d ||
+  (N.leb 65 n && N.leb n 90 && N.eqb k (n + 32)) ||
+  (N.leb 65 k && N.leb k 90 && N.eqb n (k + 32)).
+
+Fixpoint same_cib (y x : string) : bool :=
+  match y, x with
+  | "", "" => true
+  | String c y', String d x' => ci_charb c d && same_cib y' x'
+  | _, _ => false
+  end.
+
+Fixpoint suffixes (s : string) : list string :=
+  s :: match s with "" => [] | String _ r => suffixes r end.
+
+Fixpoint take (n : nat) (s : string) : string :=
+  match n, s with
+  | S n', String c r => String c (take n' r)
+  | _, _ => ""
+  end.
+
+Definition is_suffixb (x s : string) : bool := existsb (String.eqb x) (suffixes s).
+Definition ends_with_cib (x s : string) : bool := existsb (fun suf => same_cib suf x) (suffixes s).
+Definition contains_cib (x s : string) : bool :=
+  existsb (fun suf => same_cib (take (String.length x) suf) x) (suffixes s).
+
+(* 1 = must be analysed, 0 = must be inert, 2 = not decided by C16 (ends in .sol, has a
+   spelling of .t.sol inside but not at the end) *)
+Definition name_class (n : string) : N :=
+  if negb (is_suffixb ".sol" n) then 0%N
+  else if ends_with_cib ".t.sol" n then 0%N
+  else if contains_cib ".t.sol" n then 2%N
+  else 1%N.
+
+(* names, for each whether the implementation analysed the file, and the class the check's
+   Python mirror assigned.  Returns (index, code):
+     1  Dir.eligible differs from the implementation
+    11  the implementation contradicts the specification on a decided name
+    90  the Python mirror of the classes disagrees with name_class (check machinery) *)
+Fixpoint check_names_from (i : N) (l : list (string * bool * N)) : list (N * N) :=
+  match l with
+  | [] => []
+  | (n, analysed, pycls) :: r =>
+      let cls := name_class n in
+      (if Bool.eqb (eligible n) analysed then [] else [(i, 1%N)]) ++
+      (if (N.eqb cls 1 && negb analysed) || (N.eqb cls 0 && analysed) then [(i, 11%N)] else []) ++
+      (if N.eqb cls pycls then [] else [(i, 90%N)]) ++
+      check_names_from (i + 1) r
+  end.
+Definition check_names (l : list (string * bool * N)) : list (N * N) := check_names_from 0 l.
+Definition count_classes (l : list (string * bool * N)) : N * N * N :=
+  (lenN (filter (fun x => N.eqb (name_class (fst (fst x))) 0) l),
+   lenN (filter (fun x => N.eqb (name_class (fst (fst x))) 1) l),
+   lenN (filter (fun x => N.eqb (name_class (fst (fst x))) 2) l)).
+
+(* the tree without the files the SPECIFICATION calls inert (class 0); undecided names stay *)
+Fixpoint prune_spec_entry (e : entry) : list entry :=
+  match e with
+  | EFile n c => if N.eqb (name_class n) 0 then [] else [e]
+  | EDir n ch => [EDir n (flat_map prune_spec_entry ch)]
+  end.
+Definition prune_spec (t : list entry) : list entry := flat_map prune_spec_entry t.
+
+Definition check_inert (t t' : list entry) (impl impl' : option fmapN) : list N :=
+  (if permb file_eqb (all_files_rec (prune_spec t)) (all_files_rec t') then [] else [20%N]) ++
+  (match impl, impl' with
+   | None, None => []
+   | Some a, Some b =>
+       (if same_multisets a b then [] else [21%N]) ++
+       (if list_eqb entry_eqb (prune_spec t) t' then (if fmap_eqb a b then [] else [23%N]) else [])
+   | _, _ => [21%N]
+   end).
